@@ -90,3 +90,34 @@ Theorem C10c_roots : forall (H : Type) (HO : ops H)
   getRoots HO m = roots HO s.
 Proof. exact map_getroots. Qed.
 Print Assumptions C10c_roots.
+
+From Utreexo Require Import Spec.Oracle.
+
+(** ** The map forest (mirror of the MapPollard mutators, Model/MapMut.v) along EVERY history
+    (Proofs/MapMutUnify2.v): after any valid sequence of general blocks, prunes, ingests and
+    verifications-with-remember from the empty forest - full or partial, any allocated height - the
+    mirror's roots and leaf count are those of the reference forest, it proves its tracked leaves with
+    the canonical proof, and it finds a hash exactly when it tracks it (on a full forest: exactly the
+    live leaves, at their true positions). *)
+From Utreexo Require Import Model.MapRead Model.MapMut Proofs.MapMutUnify2.
+Theorem C10_map_forest_every_history :
+  forall (H : Type) (HO : ops H), ops_ok HO ->
+  (forall x y, op_eqb HO (op_hash2 HO x y) (op_empty HO) = false) ->
+  forall (T : N) (full : bool) (l : list (bop H)),
+    T <= 63 -> hvalid2 H HO full ([], []) l ->
+    exists m,
+      hrun2 H HO full ([], []) (mkM [] [] 0 T full) l = Some m /\
+      (let sF := fst (hfinal2 H HO full ([], []) l) in
+       let RF := snd (hfinal2 H HO full ([], []) l) in
+       getRoots HO m = roots HO sF /\
+       ms_n m = num_leaves sF /\
+       (forall hs, (forall h, In h hs -> In h RF) -> NoDup hs ->
+                   Prove HO m hs = exp_prove HO (mk_ctx HO sF) hs) /\
+       (forall h, GetLeafPosition HO m h = exp_leafpos HO (mk_ctx HO sF) (memH HO h RF) h) /\
+       (full = true ->
+        (forall hs, (forall h, In h hs -> In (Some h) sF) -> NoDup hs ->
+                    Prove HO m hs = exp_prove HO (mk_ctx HO sF) hs) /\
+        (forall h, In (Some h) sF <-> (exists p, GetLeafPosition HO m h = Some p)) /\
+        (forall h, GetLeafPosition HO m h = leaf_pos HO (rows_of (num_leaves sF)) (layout HO sF) h))).
+Proof. exact history2_observables. Qed.
+Print Assumptions C10_map_forest_every_history.
